@@ -353,7 +353,8 @@ def r8(ctx, facts):
             r.instance("%s:store#%d" % (fn_short(b.path), n), ok, why, b.stmt_span(s))
         # the Full arm of merge_metadata appends the new channel
         if b.path.endswith("::merge_metadata"):
-            pushes = [c for c in b.calls_to("Vec::<T, A>::push", "Vec::<T, A>::extend", "Vec::<T, A>::append") if any(c.bb in b.reachable_from(tg) for tg in full_targets)]
+            pushes = [c for c in b.calls_to("Vec::<T, A>::push", "Vec::<T, A>::extend", "Vec::<T, A>::append", "core::iter::traits::collect::Extend::extend", "Vec::<T, A>::extend_from_slice")
+                      if any(c.bb in b.reachable_from(tg) for tg in full_targets)]
             r.instance("merge_metadata:full-arm-appends-reply", bool(pushes), "when a Full update is already pending, the new refresh reply channel must be appended to its refresh_responses", b.span)
     if n == 0:
         raise AnchorLost("no store into MetadataUpdate.metadata_changes found")
